@@ -1,5 +1,7 @@
 import MgpuModel.C09_Disp
 import MgpuModel.C09_Part
+import MgpuModel.C09_CU
+import MgpuModel.C09_PCP
 /-! # C09 — line-protocol handler
 
 Three kinds of case lines (one scenario per line, ops separated by `;`):
@@ -181,6 +183,8 @@ def envOp (e : Env) (o : List String) : Env :=
 
 def handleCP (first : List String) (ops : List String) : String :=
   let alg := (kv? first "alg").getD "rr"
+  -- the partition placement algorithm has its own command-processor model (`MgpuModel/C09_PCP.lean`)
+  if alg = "partition" then handlePCP first ops else
   let nd := (kvNat? first "nd").getD 8
   let cfg : Cfg := { greedy := alg = "greedy", klo := (kvNat? first "klo").getD 0,
                      ko := (kvNat? first "ko").getD 3600, sklo := (kvNat? first "sklo").getD 0,
@@ -207,6 +211,7 @@ def handle (line : String) : String :=
     | _ :: "res" :: _ => handleRes (words first) ops
     | _ :: "cp" :: _ => handleCP (words first) ops
     | _ :: "part" :: _ => handlePart (words first)
+    | _ :: "cuside" :: _ => CUSide.handle (words first) ops
     | [_, "const"] =>
       -- what the shipped CU reports to the pool, and the register files `cu.MakeBuilder` allocates
       -- (`byte_offsets_disjoint'` is about exactly these sizes)
